@@ -12,6 +12,7 @@ import YashModel.Job.Steps
 import YashModel.Job.BuiltinSteps
 import YashModel.Job.ExtSteps
 import YashModel.Job.ApiSteps
+import YashModel.Job.ApiLemmas
 namespace YashModel.Job
 
 /-- The statement of the property on one table, in the existential form of the property text and
@@ -93,6 +94,7 @@ theorem inv_step (s : JobList) (op : Op) (h : Inv s) (hpre : opPre s op = true) 
   | ajs pid r i name =>
     simp only [step, addJobIfSuspended_table]
     exact handleJobStatus_inv s pid r i name h hpre
+  | removeIfFirst k p r => simp only [step, removeIfS_eq]; exact removeIf_inv s _ _ h
 
 /-- ★ hence it holds after every history — any length, any number of jobs -/
 theorem inv_reachable (ops : List Op) (s : JobList) (h : Inv s) (hp : PathPre s ops) : Inv (run s ops) := by
@@ -301,6 +303,7 @@ theorem index_stable (s : JobList) (op : Op) (h : Inv s) (hpre : opPre s op = tr
     split
     · exact insert_stable s _ h
     · exact stable_of_sub _ _ h (Sub.refl s)
+  | removeIfFirst k p r => simp only [step, removeIfS_eq]; exact stable_of_sub _ _ h (extractLoop_sub _ _ _ _ _ _ _)
 
 /-- ★ `%%`/`%+` designate the current job, `%-` the previous job, `%n` the job at index `n-1`;
     on a consistent table `%%` succeeds iff the table is non-empty. -/
@@ -373,6 +376,7 @@ theorem last_async (s : JobList) (op : Op) :
   | ajs pid r i name =>
     simp only [step, addJobIfSuspended_table]
     exact handleJobStatus_lastAsync s pid r i name
+  | removeIfFirst k p r => simp only [step, removeIfS_eq]; exact extractLoop_lastAsync _ _ _ _ _ _ _
 
 /-! ### the precondition is needed and satisfiable; hypotheses are met by non-trivial histories -/
 
